@@ -7,7 +7,7 @@ DECIDES = ('INDUCTIVE INVARIANT over all finite histories of public calls: every
            'weights, tessellation, container aggregates, weighted grid) empty or consistent on every normal path (IV1); only the '
            'owning modules write defining fields (IV2); every cache key read is created on every construction path incl. deep copy '
            '(IV3); deep copies bind every attribute through copy.deepcopy and never share the cache (IV4); tessellator reset clears '
-           'everything the tessellated-test reads (IV6).')
+           'everything the tessellated-test reads (IV6). the transforms called without inplace return a deep copy on every path - also for the identity (multiplier 1, zero vector, zero angle) - so that editing the result never changes the argument (PU2, may-alias analysis).')
 NOT_DECIDED = ('staleness through aliases handed out by getters (user mutating a returned list), evaluate(start=, stop=) partial ranges, '
                'container caches that depend on the state of elements stored by reference (IV5: design-level known finding), numerical '
                'equality of a recomputed view with a fresh object.')
@@ -23,6 +23,8 @@ def check(m, run):
     rs.iv6_reset_complete(m, run)
     iv5(m, run)
     iv7(m, run)
+    from . import c10
+    c10.pu2(m, run)      # without inplace, the transforms return an object that shares nothing with their argument: editing one never changes the other
     run.floor('IV1.no-stale-cache', 600, 'class x entry x cache triples on the pinned tree')
     run.floor('IV3.cache-key-init', 10, 'NURBS x2 keys x3 classes, containers, grid')
     run.floor('IV4.deepcopy-independent', 4, 'memo/attrs obligations')
